@@ -103,7 +103,7 @@ int vf_run_case(Src &s, Report &r) {
 						unsigned kind = s.pick(3);
 						PktInfo fi2 = { st.size(), 0, -1 };
 						st.push_back(0x47);
-						if (kind == 0) { unsigned op = pid ^ (1 + s.pick(7)); st.push_back((uint8_t)(0x40 | (op >> 8))); st.push_back((uint8_t) op); st.push_back((uint8_t)(0x10 | (cc_other++ & 15))); for (int i = 0; i < 184; ++i) st.push_back((uint8_t)(2 + s.u8() % 250)); }
+						if (kind == 0) { unsigned op = pid ^ (1 + s.pick(7)); st.push_back((uint8_t)(0x40 | (op >> 8))); st.push_back((uint8_t) op); st.push_back((uint8_t)(0x10 | (cc_other & 15) | (cc_other % 3 == 1 ? 0x80 : cc_other % 5 == 2 ? 0xC0 : 0))); ++cc_other;	/* every third foreign packet is scrambled (pay TV next to the VBI stream) */ for (int i = 0; i < 184; ++i) st.push_back((uint8_t)(2 + s.u8() % 250)); }
 						else if (kind == 1) { st.push_back((uint8_t)(pid >> 8)); st.push_back((uint8_t) pid); st.push_back((uint8_t)(0x20 | ((cc - 1) & 15))); st.push_back(183); st.push_back(0); for (int i = 0; i < 182; ++i) st.push_back(0xFF); }	// adaptation field only: continuity counter not incremented
 						else { st.push_back(0x1F); st.push_back(0xFF); st.push_back(0x10); for (int i = 0; i < 184; ++i) st.push_back(0xFF); }
 						fi2.end = st.size(); pk.push_back(fi2);
